@@ -85,10 +85,9 @@ class BitmapMetrics(NamedTuple):
                 _INT8_RANGE,
                 max(
                     round(
-                        (
-                            _width_in_pixels(config, image_data)
-                            - config.bitmap_resolution
-                        )
+                        # the image's own width: it only equals bitmap_resolution
+                        # for square bitmaps
+                        (_width_in_pixels(config, image_data) - image_data.size[0])
                         / 2
                     ),
                     0,
